@@ -75,8 +75,7 @@ def harness(h):
     h.check(imf.ndim == 2 and imf.shape[0] == N and imf.shape[1] >= 1, 'shape', imf.shape)
     if not (imf.ndim == 2 and imf.shape[0] == N and imf.shape[1] >= 1):
         return
-    if h.params['interp'] == 'splrep':
-        h.observe('imf', imf)
+    h.observe('imf', imf)
     K = imf.shape[1]
     h.note('two-or-more-imfs' if K >= 2 else 'residual-only')
     last = imf[:, -1]
